@@ -233,13 +233,13 @@ func (bs *brokerScen) onRequest(c *simConn, h reqHeader, body interface{}, fault
 			bs.resetFault = true
 		}
 		switch fd {
-		case "wrong-corr", "oversize", "truncate", "short-header", "close":
+		case "wrong-corr", "oversize", "badlen", "truncate", "short-header", "close":
 			c.mu.Lock()
 			c.poisoned = true
 			c.mu.Unlock()
 		}
 		switch fd {
-		case "wrong-corr", "oversize", "truncate", "short-header", "close", "drop-before", "drop-after", "silence", "stall":
+		case "wrong-corr", "oversize", "badlen", "truncate", "short-header", "close", "drop-before", "drop-after", "silence", "stall":
 			if bs.faultIdx < 0 {
 				bs.faultIdx = idx
 			}
@@ -285,7 +285,7 @@ func (bs *brokerScen) judge() {
 		if !call.returned {
 			continue
 		}
-		badly := call.faulted == "wrong-corr" || call.faulted == "oversize" || call.faulted == "truncate" || call.faulted == "short-header" || call.faulted == "close" || call.faulted == "drop-before" || call.faulted == "drop-after" || call.faulted == "silence" || call.faulted == "stall"
+		badly := call.faulted == "wrong-corr" || call.faulted == "oversize" || call.faulted == "badlen" || call.faulted == "truncate" || call.faulted == "short-header" || call.faulted == "close" || call.faulted == "drop-before" || call.faulted == "drop-after" || call.faulted == "silence" || call.faulted == "stall"
 		if call.err == nil && badly {
 			rule := "C14.wrong-response"
 			if call.faulted == "wrong-corr" {
